@@ -597,3 +597,374 @@ Proof.
 Qed.
 
 End Collapse.
+
+(* ------------------------------------------------------------------ C. the finite core *)
+Inductive tag := TOld | TNew | TNext | TSb | TSt.
+
+Definition tag_eqb (a b : tag) : bool :=
+  match a, b with
+  | TOld, TOld | TNew, TNew | TNext, TNext | TSb, TSb | TSt, TSt => true
+  | _, _ => false
+  end.
+Lemma tag_eqb_eq : forall a b, tag_eqb a b = true -> a = b.
+Proof. destruct a, b; simpl; congruence. Qed.
+
+Fixpoint tags_eqb (a b : list tag) : bool :=
+  match a, b with
+  | [], [] => true
+  | x :: r, y :: s => tag_eqb x y && tags_eqb r s
+  | _, _ => false
+  end.
+Lemma tags_eqb_eq : forall a b, tags_eqb a b = true -> a = b.
+Proof.
+  induction a as [|x r IH]; destruct b as [|y s]; simpl; try congruence.
+  intro H. apply andb_true_iff in H as [H1 H2]. f_equal; [now apply tag_eqb_eq | now apply IH].
+Qed.
+
+Definition loaded_is (r : lres (list tag)) (l : list tag) : bool :=
+  match r with LOk x => tags_eqb x l | LRaise _ => false end.
+Lemma loaded_is_eq : forall r l, loaded_is r l = true -> r = LOk l.
+Proof. destruct r; simpl; [intros l H; f_equal; now apply tags_eqb_eq | discriminate]. Qed.
+
+Definition again_ok (a : again tag) : bool :=
+  match a_status a with Done => true | _ => false end && negb (a_need_save a) && loaded_is (a_loaded a) [TNext].
+
+Lemma again_ok_spec : forall a, again_ok a = true -> again_spec TNext a.
+Proof.
+  intros a H. unfold again_ok in H. apply andb_true_iff in H as [H H3]. apply andb_true_iff in H as [H1 H2].
+  repeat split.
+  - destruct (a_status a); congruence.
+  - now destruct (a_need_save a).
+  - now apply loaded_is_eq.
+Qed.
+
+Definition old_or_nothing (c : cfg) : list tag := if c_main c then [TOld] else [].
+
+Definition crash_ok (c : cfg) (o : crash_obs tag) : bool :=
+  (loaded_is (co_loaded o) [TNew] || loaded_is (co_loaded o) (old_or_nothing c))
+  && match co_cfg o with Some c' => cfg_valid c' | None => false end
+  && again_ok (co_again o).
+
+Lemma crash_ok_spec : forall c o, crash_ok c o = true -> crash_spec c TOld TNew TNext o.
+Proof.
+  intros c o H. unfold crash_ok in H. apply andb_true_iff in H as [H H3]. apply andb_true_iff in H as [H1 H2].
+  split; [|split].
+  - apply orb_true_iff in H1 as [H1|H1]; [left | right]; apply loaded_is_eq in H1; rewrite H1; auto; unfold old_or_nothing; destruct (c_main c); reflexivity.
+  - destruct (co_cfg o) as [c'|]; [eauto | discriminate].
+  - now apply again_ok_spec.
+Qed.
+
+Definition file_is_new (f : option (file tag)) : bool :=
+  match f with Some (mkFile (CGood TNew) (CGood TNew) false) => true | _ => false end.
+Lemma file_is_new_eq : forall f, file_is_new f = true -> f = Some (synced (CGood TNew)).
+Proof.
+  intros [[[[| | | |]| | |] [[| | | |]| | |] [|]]|]; simpl; try discriminate. reflexivity.
+Qed.
+
+Definition fault_ok (c : cfg) (o : fault_obs tag) : bool :=
+  match fo_status o with Crashed => false | Raised => fo_need_save o | Done => true end
+  && (fo_need_save o || file_is_new (fo_main o))
+  && (loaded_is (fo_loaded o) [TNew] || loaded_is (fo_loaded o) (old_or_nothing c))
+  && again_ok (fo_again o).
+
+Lemma fault_ok_spec : forall c o, fault_ok c o = true -> fault_spec c TOld TNew TNext o.
+Proof.
+  intros c o H. unfold fault_ok in H.
+  apply andb_true_iff in H as [H H4]. apply andb_true_iff in H as [H H3]. apply andb_true_iff in H as [H1 H2].
+  split; [|split; [|split; [|split]]].
+  - destruct (fo_status o); congruence.
+  - intro E. now rewrite E in H1.
+  - intro E. rewrite E in H2. simpl in H2. now apply file_is_new_eq.
+  - apply orb_true_iff in H3 as [H3|H3]; [left | right]; apply loaded_is_eq in H3; rewrite H3; auto; unfold old_or_nothing; destruct (c_main c); reflexivity.
+  - now apply again_ok_spec.
+Qed.
+
+(* transport of the specifications along a renaming of states *)
+Section Transport.
+Context {St : Type} (g : tag -> St).
+
+Lemma again_spec_map : forall a, again_spec TNext a -> again_spec (g TNext) (amap g a).
+Proof. intros a (H1 & H2 & H3). repeat split; simpl; auto. now rewrite H3. Qed.
+
+Lemma crash_spec_map : forall c o,
+  crash_spec c TOld TNew TNext o -> crash_spec c (g TOld) (g TNew) (g TNext) (comap g o).
+Proof.
+  intros c o (H1 & H2 & H3). split; [|split]; simpl; auto.
+  - destruct H1 as [H1|H1]; rewrite H1; simpl; auto; right; destruct (c_main c); reflexivity.
+  - now apply again_spec_map.
+Qed.
+
+Lemma fault_spec_map : forall c o,
+  fault_spec c TOld TNew TNext o -> fault_spec c (g TOld) (g TNew) (g TNext) (fomap g o).
+Proof.
+  intros c o (H1 & H2 & H3 & H4 & H5). split; [|split; [|split; [|split]]]; simpl; auto.
+  - intro E. rewrite (H3 E). reflexivity.
+  - destruct H4 as [H4|H4]; rewrite H4; simpl; auto; right; destruct (c_main c); reflexivity.
+  - now apply again_spec_map.
+Qed.
+End Transport.
+
+Lemma all_cfgs_complete : forall c, cfg_valid c = true -> In c all_cfgs.
+Proof.
+  intros [m b t] H. destruct m, b as [[| |]|], t as [[| |]|]; try discriminate H;
+    cbv [all_cfgs all_kinds map flat_map app]; simpl; repeat first [left; reflexivity | right].
+Qed.
+
+Definition all_loss : list loss := [LoseAll; LoseHalf; LoseNone].
+Lemma all_loss_complete : forall l, In l all_loss.
+Proof. destruct l; simpl; auto. Qed.
+
+(* ---- crash ---- *)
+Definition crash_check (P : progs) (dmg : list cls) : bool :=
+  forallb (fun c => forallb (fun ev =>
+    let st1 := fst (save 2 TNew ev (p_save P) (fresh (mk_prior c TOld TSb TSt))) in
+    forallb (fun nl => forallb (fun l => forallb (fun ep => forallb (fun ee =>
+      crash_ok c (crash_scn_gen P c TOld TNew TNext TSb TSt 2 ev (crash_lost nl l) ep ee 2))
+      dmg) dmg) all_loss) (seq 0 (S (List.length (dlog (m_fs st1))))))
+    (all_events EvCrash (List.length (p_save P)))) all_cfgs.
+
+Definition gtag {St} (old new next sb stt : St) (t : tag) : St :=
+  match t with TOld => old | TNew => new | TNext => next | TSb => sb | TSt => stt end.
+
+Lemma save_again_w : forall {St} P ep ee w2 (next : St) st, 1 <= w2 ->
+  save_again P ep ee w2 next st = save_again P ep ee 2 next st.
+Proof. intros. unfold save_again, save. now rewrite exec_none_collapse. Qed.
+
+Lemma crash_atomic_gen : forall P dmg, crash_check P dmg = true ->
+  forall (St : Type) (old new next sb stt : St) c w i j nlost l ep ee w2,
+    cfg_valid c = true -> 1 <= w -> 1 <= w2 -> In ep dmg -> In ee dmg ->
+    crash_spec c old new next (crash_scn P c old new next sb stt w i j nlost l ep ee w2).
+Proof.
+  intros P dmg Hchk St old new next sb stt c w i j nlost l ep ee w2 Hc Hw Hw2 Hep Hee.
+  set (g := gtag old new next sb stt).
+  change old with (g TOld). change new with (g TNew). change next with (g TNext).
+  change sb with (g TSb). change stt with (g TSt).
+  rewrite crash_scn_map. apply crash_spec_map.
+  destruct (@event_reduce tag w EvCrash i j (p_save P) Hw) as (ev' & Hin & Hev).
+  unfold crash_scn, crash_scn_gen, save. rewrite Hev.
+  set (st1 := fst (exec 2 TNew ev' (p_save P) (fresh (mk_prior c TOld TSb TSt)))).
+  rewrite crash_lost_min.
+  set (nl := Nat.min nlost (List.length (dlog (m_fs st1)))).
+  unfold crash_check in Hchk.
+  rewrite forallb_forall in Hchk. specialize (Hchk c (all_cfgs_complete c Hc)).
+  rewrite forallb_forall in Hchk. specialize (Hchk ev' Hin). cbv zeta in Hchk.
+  rewrite forallb_forall in Hchk.
+  assert (Hnl : In nl (seq 0 (S (List.length (dlog (m_fs st1)))))) by (apply in_seq; unfold nl; lia).
+  specialize (Hchk nl Hnl).
+  rewrite forallb_forall in Hchk. specialize (Hchk l (all_loss_complete l)).
+  rewrite forallb_forall in Hchk. specialize (Hchk ep Hep).
+  rewrite forallb_forall in Hchk. specialize (Hchk ee Hee).
+  apply crash_ok_spec in Hchk. unfold crash_scn_gen, save in Hchk. fold st1 in Hchk.
+  destruct (loadf P ep ee (crash_lost nl l (m_fs st1))) as [fs2 r].
+  rewrite (save_again_w P ep ee w2 TNext (fresh fs2) Hw2). exact Hchk.
+Qed.
+
+(* ---- fault ---- *)
+Definition fault_check (P : progs) (dmg : list cls) : bool :=
+  forallb (fun c => forallb (fun ev => forallb (fun ep => forallb (fun ee =>
+      fault_ok c (fault_scn_gen P c TOld TNew TNext TSb TSt 2 ev ep ee 2))
+      dmg) dmg)
+    (all_events EvFault (List.length (p_save P)))) all_cfgs.
+
+Lemma fault_atomic_gen : forall P dmg, fault_check P dmg = true ->
+  forall (St : Type) (old new next sb stt : St) c w i j ep ee w2,
+    cfg_valid c = true -> 1 <= w -> 1 <= w2 -> In ep dmg -> In ee dmg ->
+    fault_spec c old new next (fault_scn P c old new next sb stt w i j ep ee w2).
+Proof.
+  intros P dmg Hchk St old new next sb stt c w i j ep ee w2 Hc Hw Hw2 Hep Hee.
+  set (g := gtag old new next sb stt).
+  change old with (g TOld). change new with (g TNew). change next with (g TNext).
+  change sb with (g TSb). change stt with (g TSt).
+  unfold fault_scn. rewrite fault_scn_gen_map. apply fault_spec_map.
+  destruct (@event_reduce tag w EvFault i j (p_save P) Hw) as (ev' & Hin & Hev).
+  unfold fault_check in Hchk.
+  rewrite forallb_forall in Hchk. specialize (Hchk c (all_cfgs_complete c Hc)).
+  rewrite forallb_forall in Hchk. specialize (Hchk ev' Hin).
+  rewrite forallb_forall in Hchk. specialize (Hchk ep Hep).
+  rewrite forallb_forall in Hchk. specialize (Hchk ee Hee).
+  apply fault_ok_spec in Hchk.
+  unfold fault_scn_gen, save in *. rewrite Hev.
+  destruct (exec 2 TNew ev' (p_save P) (fresh (mk_prior c TOld TSb TSt))) as [st1 s1].
+  rewrite (save_again_w P ep ee w2 TNext st1 Hw2). exact Hchk.
+Qed.
+
+(* the five configurations named by the property are among the valid ones *)
+Lemma five_cfgs_valid : forall c, In c five_cfgs -> cfg_valid c = true.
+Proof. intros c H. simpl in H. repeat destruct H as [<-|H]; try reflexivity. contradiction. Qed.
+
+(* ---- the finite checks for the code as it is now (re-run whenever Gen/*.v changes) ---- *)
+Lemma crash_check_json : crash_check (code Json) (damage_of Json) = true.
+Proof. vm_compute. reflexivity. Qed.
+Lemma crash_check_pickle : crash_check (code Pickle) (damage_of Pickle) = true.
+Proof. vm_compute. reflexivity. Qed.
+Lemma fault_check_json : fault_check (code Json) (damage_of Json) = true.
+Proof. vm_compute. reflexivity. Qed.
+Lemma fault_check_pickle : fault_check (code Pickle) (damage_of Pickle) = true.
+Proof. vm_compute. reflexivity. Qed.
+
+Lemma crash_atomic : forall (f : fmt) (St : Type) (old new next sb stt : St) c w i j nlost l ep ee w2,
+  cfg_valid c = true -> 1 <= w -> 1 <= w2 -> In ep (damage_of f) -> In ee (damage_of f) ->
+  crash_spec c old new next (crash_scn (code f) c old new next sb stt w i j nlost l ep ee w2).
+Proof.
+  intros [|]; [apply (crash_atomic_gen _ _ crash_check_json) | apply (crash_atomic_gen _ _ crash_check_pickle)].
+Qed.
+
+Lemma fault_atomic : forall (f : fmt) (St : Type) (old new next sb stt : St) c w i j ep ee w2,
+  cfg_valid c = true -> 1 <= w -> 1 <= w2 -> In ep (damage_of f) -> In ee (damage_of f) ->
+  fault_spec c old new next (fault_scn (code f) c old new next sb stt w i j ep ee w2).
+Proof.
+  intros [|]; [apply (fault_atomic_gen _ _ fault_check_json) | apply (fault_atomic_gen _ _ fault_check_pickle)].
+Qed.
+
+(* ---- sensitivity: the theorem depends on exactly the mechanism the property names ---- *)
+Definition c_main_only : cfg := mkCfg true None None.
+Definition e_json : cls := hd [] (damage_of Json).
+
+(* without os.fsync: the save returns, the machine dies before the data reached the disk *)
+Lemma fsync_needed :
+  ~ crash_spec c_main_only TOld TNew TNext
+      (crash_scn (with_save (code Json) (drop_fsync (save_prog_of Json)))
+                 c_main_only TOld TNew TNext TSb TSt 1 99 0 0 LoseAll e_json e_json 1).
+Proof. intros [H _]. vm_compute in H. destruct H as [H|H]; discriminate H. Qed.
+
+Lemma fsync_needed_loads_nothing :
+  co_loaded (crash_scn (with_save (code Json) (drop_fsync (save_prog_of Json)))
+                       c_main_only TOld TNew TNext TSb TSt 1 99 0 0 LoseAll e_json e_json 1) = LOk [].
+Proof. vm_compute. reflexivity. Qed.
+
+(* renames swapped: `rename Tmp Main` destroys the old file, `rename Main Bak` then moves the NEW
+   file aside and `remove Bak` deletes it: once the save has run, nothing is left to load *)
+Lemma order_needed :
+  exists i j nlost l,
+  ~ crash_spec c_main_only TOld TNew TNext
+      (crash_scn (with_save (code Json) (swap_renames (save_prog_of Json)))
+                 c_main_only TOld TNew TNext TSb TSt 1 i j nlost l e_json e_json 1).
+Proof.
+  exists 99, 0, 0, LoseAll. intros [H _]. vm_compute in H. destruct H as [H|H]; discriminate H.
+Qed.
+
+(* metadata not ordered: the complete save, then a crash that loses ONLY the second rename *)
+Lemma unordered_metadata_refuted :
+  exists (keep : nat -> bool) (l : loss),
+  ~ crash_spec c_main_only TOld TNew TNext
+      (crash_scn_gen (code Json) c_main_only TOld TNew TNext TSb TSt 1 None
+                     (crash_fs keep l) e_json e_json 1).
+Proof.
+  exists (fun i => negb (Nat.eqb i 2)), LoseAll. intros [H _]. vm_compute in H.
+  destruct H as [H|H]; discriminate H.
+Qed.
+
+(* non-vacuity: crash between the two renames -> the backup is promoted and old is loaded;
+   crash after the second rename -> new is loaded *)
+Lemma crash_example_old :
+  co_loaded (crash_scn (code Json) c_main_only TOld TNew TNext TSb TSt 3 10 0 0 LoseAll e_json e_json 1) = LOk [TOld].
+Proof. vm_compute. reflexivity. Qed.
+Lemma crash_example_new :
+  co_loaded (crash_scn (code Json) c_main_only TOld TNew TNext TSb TSt 3 11 0 0 LoseAll e_json e_json 1) = LOk [TNew].
+Proof. vm_compute. reflexivity. Qed.
+Lemma crash_example_lost_rename :
+  co_loaded (crash_scn (code Json) c_main_only TOld TNew TNext TSb TSt 3 11 0 1 LoseAll e_json e_json 1) = LOk [TOld].
+Proof. vm_compute. reflexivity. Qed.
+
+(* ------------------------------------------------------------------ C13 *)
+Definition tag_classes (dmg : list cls) (s : tag) : list (fclass tag) := FMissing :: FGood s :: map FBad dmg.
+
+Definition load_ok (P : progs) (ep ee : cls) (m b t : fclass tag) : bool :=
+  let '(fs2, r) := loadf P ep ee (mk_disk m b t) in
+  loaded_is r (expected_load m b) && again_ok (save_again P ep ee 2 TNext (fresh fs2)).
+
+Definition load_check (P : progs) (dmg : list cls) : bool :=
+  forallb (fun m => forallb (fun b => forallb (fun t => forallb (fun ep => forallb (fun ee =>
+    load_ok P ep ee m b t) dmg) dmg) (tag_classes dmg TSt)) (tag_classes dmg TSb)) (tag_classes dmg TOld).
+
+Definition tagc {St} (s : tag) (f : fclass St) : fclass tag :=
+  match f with FMissing => FMissing | FGood _ => FGood s | FBad e => FBad e end.
+Definition state_or {St} (d : St) (f : fclass St) : St := match f with FGood s => s | _ => d end.
+
+Lemma tagc_in : forall {St} dmg s (f : fclass St), class_ok dmg f -> In (tagc s f) (tag_classes dmg s).
+Proof.
+  intros St dmg s [|x|e] H; simpl; auto. right. right. now apply in_map.
+Qed.
+
+Lemma load_total_gen : forall P dmg, load_check P dmg = true ->
+  forall (St : Type) (next : St) (m b t : fclass St) ep ee w,
+    class_ok dmg m -> class_ok dmg b -> class_ok dmg t -> In ep dmg -> In ee dmg -> 1 <= w ->
+    snd (loadf P ep ee (mk_disk m b t)) = LOk (expected_load m b) /\
+    again_spec next (save_again P ep ee w next (fresh (fst (loadf P ep ee (mk_disk m b t))))).
+Proof.
+  intros P dmg Hchk St next m b t ep ee w Hm Hb Ht Hep Hee Hw.
+  set (g := gtag (state_or next m) next next (state_or next b) (state_or next t)).
+  set (m' := tagc TOld m). set (b' := tagc TSb b). set (t' := tagc TSt t).
+  assert (Ed : mk_disk m b t = fsmap g (mk_disk m' b' t')).
+  { rewrite <- mk_disk_map. f_equal; [destruct m | destruct b | destruct t]; reflexivity. }
+  assert (Ex : expected_load m b = map g (expected_load m' b')) by (destruct m, b; reflexivity).
+  rewrite Ed, Ex, loadf_map. simpl fst. simpl snd.
+  unfold load_check in Hchk.
+  rewrite forallb_forall in Hchk. specialize (Hchk _ (tagc_in dmg TOld m Hm)).
+  rewrite forallb_forall in Hchk. specialize (Hchk _ (tagc_in dmg TSb b Hb)).
+  rewrite forallb_forall in Hchk. specialize (Hchk _ (tagc_in dmg TSt t Ht)).
+  rewrite forallb_forall in Hchk. specialize (Hchk ep Hep).
+  rewrite forallb_forall in Hchk. specialize (Hchk ee Hee).
+  unfold load_ok in Hchk.
+  fold m' b' t' in Hchk.
+  destruct (loadf P ep ee (mk_disk m' b' t')) as [fs2 r]. simpl.
+  apply andb_true_iff in Hchk as [H1 H2]. split.
+  - apply loaded_is_eq in H1. rewrite H1. reflexivity.
+  - change (fresh (fsmap g fs2)) with (msmap g (fresh fs2)).
+    change next with (g TNext). rewrite save_again_map. apply again_spec_map.
+    rewrite save_again_w by exact Hw. now apply again_ok_spec.
+Qed.
+
+Lemma load_check_json : load_check (code Json) (damage_of Json) = true.
+Proof. vm_compute. reflexivity. Qed.
+Lemma load_check_pickle : load_check (code Pickle) (damage_of Pickle) = true.
+Proof. vm_compute. reflexivity. Qed.
+
+Lemma load_total : forall (f : fmt) (St : Type) (next : St) (m b t : fclass St) ep ee w,
+  class_ok (damage_of f) m -> class_ok (damage_of f) b -> class_ok (damage_of f) t ->
+  In ep (damage_of f) -> In ee (damage_of f) -> 1 <= w ->
+  snd (loadf (code f) ep ee (mk_disk m b t)) = LOk (expected_load m b) /\
+  again_spec next (save_again (code f) ep ee w next (fresh (fst (loadf (code f) ep ee (mk_disk m b t))))).
+Proof.
+  intros [|]; [apply (load_total_gen _ _ load_check_json) | apply (load_total_gen _ _ load_check_pickle)].
+Qed.
+
+(* the measured decoder failure classes are caught by both handlers of safe_load_sensors *)
+Definition damage_caught_check (f : fmt) : bool :=
+  forallb (fun e => catches mro_tab (sl_h1 safe_load_prog) e && catches mro_tab (sl_h2 safe_load_prog) e)
+          (damage_of f).
+
+Lemma damage_caught : forall f e, In e (damage_of f) ->
+  catches mro_tab (sl_h1 safe_load_prog) e = true /\ catches mro_tab (sl_h2 safe_load_prog) e = true.
+Proof.
+  intros f e H.
+  assert (Hc : damage_caught_check f = true) by (destruct f; vm_compute; reflexivity).
+  unfold damage_caught_check in Hc. rewrite forallb_forall in Hc. specialize (Hc e H).
+  now apply andb_true_iff in Hc.
+Qed.
+
+Lemma damage_detected : damage_undetected_json = 0%N /\ damage_undetected_pickle = 0%N.
+Proof. split; vm_compute; reflexivity. Qed.
+
+(* a class the handlers do NOT catch escapes start-up (shows the premise of load_total is needed) *)
+Lemma uncaught_class_escapes :
+  snd (loadf (code Pickle) e_json e_json (mk_disk (FBad (s2p "KeyError")) (FGood TSb) FMissing))
+  = LRaise (s2p "KeyError").
+Proof. vm_compute. reflexivity. Qed.
+
+Lemma load_example_backup :
+  snd (loadf (code Pickle) e_json e_json
+         (mk_disk (FBad (s2p "_pickle.UnpicklingError")) (FGood TSb) FMissing)) = LOk [TSb].
+Proof. vm_compute. reflexivity. Qed.
+
+Lemma safe_load_total : forall (f : fmt) (St : Type) (next : St) (m b t : fclass St) (ep ee : cls),
+  class_ok (damage_of f) m -> class_ok (damage_of f) b -> class_ok (damage_of f) t ->
+  In ep (damage_of f) -> In ee (damage_of f) ->
+  snd (loadf (code f) ep ee (mk_disk m b t)) = LOk (expected_load m b).
+Proof. intros. now apply (load_total f St next m b t ep ee 1). Qed.
+
+Lemma after_load_consistent : forall (f : fmt) (St : Type) (next : St) (m b t : fclass St) (ep ee : cls) (w : nat),
+  class_ok (damage_of f) m -> class_ok (damage_of f) b -> class_ok (damage_of f) t ->
+  In ep (damage_of f) -> In ee (damage_of f) -> 1 <= w ->
+  again_spec next (save_again (code f) ep ee w next (fresh (fst (loadf (code f) ep ee (mk_disk m b t))))).
+Proof. intros. now apply (load_total f St next m b t ep ee w). Qed.
